@@ -144,6 +144,7 @@ func LoadCorpus(repo string) (*Corpus, error) {
 					l := ls.A[0].Clone()
 					if doc := l.Get("document"); doc != nil {
 						doc.Set("code", JStr(fmt.Sprintf("00%d", i+1)))
+						doc.Set("currency", JStr("EUR")) // a reference may name its own currency
 						doc.Del("uuid")
 						if nv, err := ParseJV([]byte(rates)); err == nil {
 							doc.Set("tax", nv)
@@ -169,6 +170,32 @@ func LoadCorpus(repo string) (*Corpus, error) {
 				}
 			}
 		}
+	}
+	// a corrective invoice whose reference to the preceding document names its
+	// currency and carries that document's tax summary
+	for _, name := range []string{"examples/es/credit-note-es-es", "examples/es/credit-note-es-es-tbai"} {
+		base := c.byName[name]
+		if base == nil || base.Err != "" || base.IsEnv {
+			continue
+		}
+		v, err := ParseJV(base.Src)
+		if err != nil || v.Get("preceding") == nil || len(v.Get("preceding").A) == 0 || v.Get("preceding").A[0].K != 'o' {
+			continue
+		}
+		pre := v.Get("preceding").A[0]
+		pre.Set("currency", JStr("EUR"))
+		if tv, err := ParseJV([]byte(`{"categories":[{"code":"VAT","rates":[{"base":"1000.00","percent":"21.0%"},{"key":"exempt","base":"50.00"}]}]}`)); err == nil {
+			pre.Set("tax", tv)
+		}
+		d := &Doc{Name: "synthetic/es-credit-note-preceding-tax", Src: v.Encode(nil)}
+		buildDoc(d, len(c.Docs))
+		c.Docs = append(c.Docs, d)
+		c.byName[d.Name] = d
+		if d.Err == "" {
+			c.Valid = append(c.Valid, d)
+			c.Invoices = append(c.Invoices, d)
+		}
+		break
 	}
 	// Portuguese documents stored before the move to addons: rate keys such as
 	// "exempt+outlay" are migrated when the document is read. No shipped example
